@@ -20,11 +20,48 @@ theorem seek_mk (data : List Byte) (p : Nat → Nat → Nat) (pos off : Nat) (h 
     subst this
     simp [mkReader]
 
+theorem seek_mk_back (data : List Byte) (p : Nat → Nat → Nat) (pos off : Nat) (h : off < pos) :
+    (mkReader data p pos).seek off = none := by
+  unfold Reader.seek
+  have h1 : ¬ off > pos := by omega
+  simp [mkReader, h1, h]
+
+@[simp] theorem mkReader_pos (d : List Byte) (p : Nat → Nat → Nat) (pos : Nat) : (mkReader d p pos).pos = pos := rfl
+
 theorem zeros_length (n : Nat) : (zeros n).length = n := by simp [zeros]
 
+theorem zeros_all (n : Nat) : (zeros n).all (· == 0) = true := by
+  simp only [zeros, List.all_eq_true]
+  intro x hx
+  have := List.eq_of_mem_replicate hx
+  simp [this]
+
+theorem zeros_add (a b : Nat) : zeros (a + b) = zeros a ++ zeros b := by
+  simp [zeros, List.replicate_append_replicate]
+
+theorem closing_eq (n : Nat) :
+    closing n = zeros 512 ++ (zeros 512 ++ zeros ((10240 - (n + 1024) % 10240) % 10240)) := by
+  unfold closing
+  rw [show (1024 : Nat) = 512 + 512 from rfl, zeros_add, List.append_assoc]
+
+/-- a member the codec can represent: the (truncated) name and size fit the ordinary header; a longer name contains no NUL
+    and its length fits a long-name header -/
+def MValid (c : Codec) (m : Member) : Prop :=
+  c.valid (m.name.take 100) m.data.length ∧ (100 < m.name.length → c.validLong (m.name.length + 1) ∧ ∀ b ∈ m.name, b ≠ 0)
+
+/-- bytes in front of a member's data: the long-name record (if any) and the ordinary header -/
+def headLen (c : Codec) (m : Member) : Nat := (longRecord c m.name).length + 512
+
+theorem longRecord_length (c : Codec) (name : List Byte) :
+    (longRecord c name).length = if name.length ≤ 100 then 0 else 512 + blockLen (name.length + 1) := by
+  unfold longRecord blockLen
+  split
+  · rfl
+  · simp only [List.length_append, c.encLong_len, zeros_length, List.length_cons, List.length_nil]
+
 theorem encMember_length (c : Codec) (m : Member) :
-    (encMember c m).length = 512 + m.data.length + padLen m.data.length := by
-  simp only [encMember, List.length_append, c.enc_len, zeros_length]
+    (encMember c m).length = headLen c m + m.data.length + padLen m.data.length := by
+  simp only [encMember, headLen, List.length_append, c.enc_len, zeros_length]; omega
 
 theorem writeMembers_cons (c : Codec) (m : Member) (ms : List Member) :
     writeMembers c (m :: ms) = encMember c m ++ writeMembers c ms := by
@@ -35,95 +72,145 @@ theorem writeMembers_length_ge (c : Codec) (ms : List Member) : 512 * ms.length 
   | nil => simp [writeMembers]
   | cons m r ih =>
     rw [writeMembers_cons, List.length_append, encMember_length]
-    simp only [List.length_cons]
+    simp only [List.length_cons, headLen]
     omega
 
 theorem classify_enc (c : Codec) (n : List Byte) (s : Nat) (h : c.valid n s) : classify c.dec (c.enc n s) = .hdr n s := by
   unfold classify
   simp [c.enc_len, c.enc_nonzero n s h, c.dec_enc n s h]
 
-theorem zeros_all (n : Nat) : (zeros n).all (· == 0) = true := by
-  simp only [zeros, List.all_eq_true]
-  intro x hx
-  have := List.eq_of_mem_replicate hx
-  simp [this]
+theorem classify_encLong (c : Codec) (n : Nat) (h : c.validLong n) : classify c.dec (c.encLong n) = .longname n := by
+  unfold classify
+  simp [c.encLong_len, c.encLong_nonzero n h, c.dec_encLong n h]
 
-theorem classify_zeros (c : Codec) : classify c.dec (zeros 512) = .eof := by
+theorem classify_zeros (dec : Dec) : classify dec (zeros 512) = .eof := by
   unfold classify
   have h1 : (zeros 512).length = 512 := zeros_length 512
   simp only [h1, zeros_all]
   simp
 
-@[simp] theorem mkReader_pos (d : List Byte) (p : Nat → Nat → Nat) (pos : Nat) : (mkReader d p pos).pos = pos := rfl
+theorem nts_name (name : List Byte) (k : Nat) (h : ∀ b ∈ name, b ≠ 0) : nts (name ++ [0] ++ zeros k) = name := by
+  unfold nts
+  induction name with
+  | nil => simp
+  | cons a r ih =>
+    have ha : a ≠ 0 := h a (List.mem_cons_self ..)
+    simp only [List.cons_append, List.takeWhile_cons, bne_iff_ne, ne_eq, ha, not_false_eq_true, if_true]
+    congr 1
+    exact ih (fun b hb => h b (List.mem_cons_of_mem _ hb))
 
-/-- **peeling**: reading an archive that starts (at `offset`) with the blocks of `ms` extracts exactly `ms` and goes on
-    with what follows — for every chunking policy `p` -/
+/-- the first thing `next()` does is the seek -/
+theorem readMembers_seek (dec : Dec) (p : Nat → Nat → Nat) (fuel : Nat) (data : List Byte) (pos offset : Nat)
+    (acc : List Member) (h : pos ≤ offset) :
+    readMembers dec fuel (mkReader data p pos) offset acc
+      = readMembers dec fuel (mkReader (data.drop (offset - pos)) p offset) offset acc := by
+  cases fuel with
+  | zero => rfl
+  | succ f =>
+    have h2 := seek_mk (data.drop (offset - pos)) p offset offset (Nat.le_refl _)
+    simp only [Nat.sub_self, List.drop_zero] at h2
+    simp only [readMembers, seek_mk data p pos offset h, h2]
+
+/-- **one member**: header(s), data; the padding is skipped by the next seek -/
+theorem readMembers_member (c : Codec) (p : Nat → Nat → Nat) (m : Member) (rest : List Byte) (off f : Nat)
+    (acc : List Member) (hv : MValid c m) :
+    readMembers c.dec (f + 1) (mkReader (encMember c m ++ rest) p off) off acc
+      = readMembers c.dec f (mkReader (zeros (padLen m.data.length) ++ rest) p (off + headLen c m + m.data.length))
+          (off + headLen c m + blockLen m.data.length) (acc ++ [m]) := by
+  have hs := seek_mk (encMember c m ++ rest) p off off (Nat.le_refl _)
+  simp only [Nat.sub_self, List.drop_zero] at hs
+  obtain ⟨hval, hlong⟩ := hv
+  by_cases hshort : m.name.length ≤ 100
+  · -- ordinary header
+    have hname : m.name.take 100 = m.name := List.take_of_length_le hshort
+    rw [hname] at hval
+    have hE : encMember c m ++ rest
+        = c.enc m.name m.data.length ++ (m.data ++ (zeros (padLen m.data.length) ++ rest)) := by
+      simp [encMember, longRecord, hshort, hname, List.append_assoc]
+    have hH : headLen c m = 512 := by simp [headLen, longRecord, hshort]
+    rw [hE] at hs ⊢
+    have t1 : (c.enc m.name m.data.length ++ (m.data ++ (zeros (padLen m.data.length) ++ rest))).take 512
+        = c.enc m.name m.data.length := List.take_left' (c.enc_len _ _)
+    have d1 : (c.enc m.name m.data.length ++ (m.data ++ (zeros (padLen m.data.length) ++ rest))).drop 512
+        = m.data ++ (zeros (padLen m.data.length) ++ rest) := List.drop_left' (c.enc_len _ _)
+    have t2 : (m.data ++ (zeros (padLen m.data.length) ++ rest)).take m.data.length = m.data := List.take_left' rfl
+    have d2 : (m.data ++ (zeros (padLen m.data.length) ++ rest)).drop m.data.length
+        = zeros (padLen m.data.length) ++ rest := List.drop_left' rfl
+    simp only [readMembers, hs, read_mk, t1, d1, classify_enc c _ _ hval, c.enc_len, t2, d2, mkReader_pos, hH]
+  · -- long-name record, then the ordinary header
+    have hgt : 100 < m.name.length := by omega
+    obtain ⟨hvl, hnz⟩ := hlong hgt
+    have hnbl : (m.name ++ [0] ++ zeros (padLen (m.name.length + 1))).length = blockLen (m.name.length + 1) := by
+      simp only [List.length_append, zeros_length, List.length_cons, List.length_nil, blockLen]
+    have hE : encMember c m ++ rest
+        = c.encLong (m.name.length + 1) ++ ((m.name ++ [0] ++ zeros (padLen (m.name.length + 1))) ++
+            (c.enc (m.name.take 100) m.data.length ++ (m.data ++ (zeros (padLen m.data.length) ++ rest)))) := by
+      simp [encMember, longRecord, hshort, List.append_assoc]
+    have hH : headLen c m = 512 + blockLen (m.name.length + 1) + 512 := by
+      simp only [headLen, longRecord_length, hshort, if_false]
+    rw [hE] at hs ⊢
+    have t0 : (c.encLong (m.name.length + 1) ++ ((m.name ++ [0] ++ zeros (padLen (m.name.length + 1))) ++
+            (c.enc (m.name.take 100) m.data.length ++ (m.data ++ (zeros (padLen m.data.length) ++ rest))))).take 512
+        = c.encLong (m.name.length + 1) := List.take_left' (c.encLong_len _)
+    have d0 : (c.encLong (m.name.length + 1) ++ ((m.name ++ [0] ++ zeros (padLen (m.name.length + 1))) ++
+            (c.enc (m.name.take 100) m.data.length ++ (m.data ++ (zeros (padLen m.data.length) ++ rest))))).drop 512
+        = (m.name ++ [0] ++ zeros (padLen (m.name.length + 1))) ++
+            (c.enc (m.name.take 100) m.data.length ++ (m.data ++ (zeros (padLen m.data.length) ++ rest))) :=
+      List.drop_left' (c.encLong_len _)
+    have tn : ((m.name ++ [0] ++ zeros (padLen (m.name.length + 1))) ++
+            (c.enc (m.name.take 100) m.data.length ++ (m.data ++ (zeros (padLen m.data.length) ++ rest)))).take (blockLen (m.name.length + 1))
+        = m.name ++ [0] ++ zeros (padLen (m.name.length + 1)) := List.take_left' hnbl
+    have dn : ((m.name ++ [0] ++ zeros (padLen (m.name.length + 1))) ++
+            (c.enc (m.name.take 100) m.data.length ++ (m.data ++ (zeros (padLen m.data.length) ++ rest)))).drop (blockLen (m.name.length + 1))
+        = c.enc (m.name.take 100) m.data.length ++ (m.data ++ (zeros (padLen m.data.length) ++ rest)) := List.drop_left' hnbl
+    have t1 : (c.enc (m.name.take 100) m.data.length ++ (m.data ++ (zeros (padLen m.data.length) ++ rest))).take 512
+        = c.enc (m.name.take 100) m.data.length := List.take_left' (c.enc_len _ _)
+    have d1 : (c.enc (m.name.take 100) m.data.length ++ (m.data ++ (zeros (padLen m.data.length) ++ rest))).drop 512
+        = m.data ++ (zeros (padLen m.data.length) ++ rest) := List.drop_left' (c.enc_len _ _)
+    have t2 : (m.data ++ (zeros (padLen m.data.length) ++ rest)).take m.data.length = m.data := List.take_left' rfl
+    have d2 : (m.data ++ (zeros (padLen m.data.length) ++ rest)).drop m.data.length
+        = zeros (padLen m.data.length) ++ rest := List.drop_left' rfl
+    simp only [readMembers, hs, read_mk, t0, d0, classify_encLong c _ hvl, c.encLong_len, tn, dn, hnbl, t1, d1,
+      classify_enc c _ _ hval, c.enc_len, t2, d2, mkReader_pos, hH, nts_name m.name _ hnz]
+    have e1 : off + 512 + blockLen (m.name.length + 1) + 512 + m.data.length
+        = off + (512 + blockLen (m.name.length + 1) + 512) + m.data.length := by omega
+    have e2 : off + 512 + blockLen (m.name.length + 1) + 512 + blockLen m.data.length
+        = off + (512 + blockLen (m.name.length + 1) + 512) + blockLen m.data.length := by omega
+    rw [e1, e2]
+
+/-- **peeling**: reading an archive that starts (at the current offset) with the blocks of `ms` extracts exactly `ms` and goes
+    on with what follows — for every chunking policy `p` -/
 theorem readMembers_peel (c : Codec) (p : Nat → Nat → Nat) (k : Nat) (tail : List Byte) :
-    ∀ (ms : List Member) (data : List Byte) (pos offset : Nat) (acc : List Member),
-      (∀ m ∈ ms, c.valid m.name m.data.length) → pos ≤ offset →
-      data.drop (offset - pos) = writeMembers c ms ++ tail →
-      readMembers c.dec (ms.length + k) (mkReader data p pos) offset acc
-        = readMembers c.dec k (mkReader tail p (offset + (writeMembers c ms).length))
-            (offset + (writeMembers c ms).length) (acc ++ ms) := by
+    ∀ (ms : List Member) (off : Nat) (acc : List Member), (∀ m ∈ ms, MValid c m) →
+      readMembers c.dec (ms.length + k) (mkReader (writeMembers c ms ++ tail) p off) off acc
+        = readMembers c.dec k (mkReader tail p (off + (writeMembers c ms).length))
+            (off + (writeMembers c ms).length) (acc ++ ms) := by
   intro ms
   induction ms with
-  | nil =>
-    intro data pos offset acc _ hpos hd
-    simp only [writeMembers, List.flatMap_nil, List.nil_append, List.length_nil, Nat.zero_add, Nat.add_zero,
-      List.append_nil] at hd ⊢
-    cases k with
-    | zero => simp [readMembers]
-    | succ k =>
-      simp only [readMembers, seek_mk data p pos offset hpos, hd]
-      have : (mkReader tail p offset).seek offset = some (mkReader (tail.drop (offset - offset)) p offset) :=
-        seek_mk tail p offset offset (Nat.le_refl _)
-      simp only [Nat.sub_self, List.drop_zero] at this
-      simp [this]
+  | nil => intro off acc _; simp [writeMembers]
   | cons m ms ih =>
-    intro data pos offset acc hv hpos hd
-    have hvm := hv m (List.mem_cons_self ..)
+    intro off acc hv
     have hfuel : (m :: ms).length + k = (ms.length + k) + 1 := by simp only [List.length_cons]; omega
-    rw [hfuel]
-    simp only [readMembers, seek_mk data p pos offset hpos, hd, read_mk]
-    -- the header block
-    have hw : writeMembers c (m :: ms) ++ tail
-        = c.enc m.name m.data.length ++ (m.data ++ (zeros (padLen m.data.length) ++ (writeMembers c ms ++ tail))) := by
-      rw [writeMembers_cons]; simp [encMember, List.append_assoc]
-    rw [hw]
-    have ht : (c.enc m.name m.data.length ++ (m.data ++ (zeros (padLen m.data.length) ++ (writeMembers c ms ++ tail)))).take 512
-        = c.enc m.name m.data.length := List.take_left' (c.enc_len _ _)
-    have hdr : (c.enc m.name m.data.length ++ (m.data ++ (zeros (padLen m.data.length) ++ (writeMembers c ms ++ tail)))).drop 512
-        = m.data ++ (zeros (padLen m.data.length) ++ (writeMembers c ms ++ tail)) := List.drop_left' (c.enc_len _ _)
-    simp only [ht, hdr, classify_enc c _ _ hvm, c.enc_len]
-    have ht2 : (m.data ++ (zeros (padLen m.data.length) ++ (writeMembers c ms ++ tail))).take m.data.length = m.data :=
-      List.take_left' rfl
-    have hdr2 : (m.data ++ (zeros (padLen m.data.length) ++ (writeMembers c ms ++ tail))).drop m.data.length
-        = zeros (padLen m.data.length) ++ (writeMembers c ms ++ tail) := List.drop_left' rfl
-    simp only [ht2, hdr2, mkReader_pos]
-    rw [ih _ (offset + 512 + m.data.length) (offset + 512 + blockLen m.data.length) _
-      (fun x hx => hv x (List.mem_cons_of_mem _ hx)) (by unfold blockLen; omega)
-      (by
-        have : offset + 512 + blockLen m.data.length - (offset + 512 + m.data.length) = padLen m.data.length := by
-          unfold blockLen; omega
-        rw [this]; exact List.drop_left' (zeros_length _))]
-    have hl : (writeMembers c (m :: ms)).length = 512 + blockLen m.data.length + (writeMembers c ms).length := by
-      rw [writeMembers_cons, List.length_append, encMember_length]; unfold blockLen; omega
-    have e1 : offset + 512 + blockLen m.data.length + (writeMembers c ms).length = offset + (writeMembers c (m :: ms)).length := by
-      rw [hl]; omega
+    rw [hfuel, writeMembers_cons, List.append_assoc, readMembers_member c p m _ off _ acc (hv m (List.mem_cons_self ..))]
+    rw [readMembers_seek _ _ _ _ _ _ _ (by unfold blockLen; omega)]
+    have hd : (zeros (padLen m.data.length) ++ (writeMembers c ms ++ tail)).drop
+        (off + headLen c m + blockLen m.data.length - (off + headLen c m + m.data.length)) = writeMembers c ms ++ tail := by
+      have : off + headLen c m + blockLen m.data.length - (off + headLen c m + m.data.length) = padLen m.data.length := by
+        unfold blockLen; omega
+      rw [this]; exact List.drop_left' (zeros_length _)
+    rw [hd, ih _ _ (fun x hx => hv x (List.mem_cons_of_mem _ hx))]
+    have hl : (encMember c m ++ writeMembers c ms).length = headLen c m + blockLen m.data.length + (writeMembers c ms).length := by
+      rw [List.length_append, encMember_length]; unfold blockLen; omega
+    rw [hl]
+    have e1 : off + headLen c m + blockLen m.data.length + (writeMembers c ms).length
+        = off + (headLen c m + blockLen m.data.length + (writeMembers c ms).length) := by omega
     rw [e1]
-    have e2 : acc ++ [{ name := m.name, data := m.data }] ++ ms = acc ++ m :: ms := by simp
-    rw [e2]
-
-theorem seek_mk_back (data : List Byte) (p : Nat → Nat → Nat) (pos off : Nat) (h : off < pos) :
-    (mkReader data p pos).seek off = none := by
-  unfold Reader.seek
-  have h1 : ¬ off > pos := by omega
-  simp [mkReader, h1, h]
+    simp
 
 /-- the result of reading an archive does not depend on the chunking policy -/
-theorem readMembers_policy (c : Codec) (p p' : Nat → Nat → Nat) :
+theorem readMembers_policy (dec : Dec) (p p' : Nat → Nat → Nat) :
     ∀ (fuel : Nat) (data : List Byte) (pos offset : Nat) (acc : List Member),
-      readMembers c.dec fuel (mkReader data p pos) offset acc = readMembers c.dec fuel (mkReader data p' pos) offset acc := by
+      readMembers dec fuel (mkReader data p pos) offset acc = readMembers dec fuel (mkReader data p' pos) offset acc := by
   intro fuel
   induction fuel with
   | zero => intro _ _ _ _; rfl
@@ -131,25 +218,21 @@ theorem readMembers_policy (c : Codec) (p p' : Nat → Nat → Nat) :
     intro data pos offset acc
     by_cases h : pos ≤ offset
     · simp only [readMembers, seek_mk _ _ _ _ h, read_mk, mkReader_pos]
-      cases classify c.dec (List.take 512 (List.drop (offset - pos) data)) <;> simp only [ih]
+      cases classify dec (List.take 512 (List.drop (offset - pos) data)) with
+      | longname n =>
+        simp only
+        cases classify dec (List.take 512 (List.drop (blockLen n) (List.drop 512 (List.drop (offset - pos) data)))) <;> simp only [ih]
+      | _ => simp only [ih]
     · simp only [readMembers, seek_mk_back _ _ _ _ (Nat.lt_of_not_le h)]
 
 /-- after the members: an exhausted stream ends the iteration silently (anywhere but at offset 0) -/
-theorem readMembers_at_end (c : Codec) (p : Nat → Nat → Nat) (k off : Nat) (acc : List Member) (h : off ≠ 0) :
-    readMembers c.dec k (mkReader [] p off) off acc = .ok acc := by
+theorem readMembers_at_end (dec : Dec) (p : Nat → Nat → Nat) (k off : Nat) (acc : List Member) (h : off ≠ 0) :
+    readMembers dec k (mkReader [] p off) off acc = .ok acc := by
   cases k with
   | zero => rfl
   | succ k =>
     have hs := seek_mk [] p off off (Nat.le_refl _)
     simp only [Nat.sub_self, List.drop_zero] at hs
     simp [readMembers, hs, read_mk, classify, h]
-
-theorem zeros_add (a b : Nat) : zeros (a + b) = zeros a ++ zeros b := by
-  simp [zeros, List.replicate_append_replicate]
-
-theorem closing_eq (n : Nat) :
-    closing n = zeros 512 ++ (zeros 512 ++ zeros ((10240 - (n + 1024) % 10240) % 10240)) := by
-  unfold closing
-  rw [show (1024 : Nat) = 512 + 512 from rfl, zeros_add, List.append_assoc]
 
 end SFV.Tar
